@@ -16,7 +16,8 @@ RULE = ("seeded programs (as C16 plus fan-out, integer/bool intermediates, list 
         "Tensor.register_hook for the total gradient) is run on them; every node's recorded Metrics are compared with numpy float64 "
         "statistics of those captured tensors. (3) an icontract postcondition recomputes the six statistics on every real "
         "Metrics.from_tensor call. (4) analyse_module: gradients left on the module equal a plain forward/backward, the ScaleDict "
-        "equals the std of independently captured tensors ('n/a' only where nothing flowed). (5) every tracked module is run a SECOND "
+        "equals the std of independently captured tensors ('n/a' only where nothing flowed). (5) 60% of the modules have some / all parameters frozen or turned into float buffers: requires_grad of every parameter, "
+        "buffer and output is compared before/after tracking. (6) every tracked module is run a SECOND "
         "time, forward-only, on new data: no stale backward metrics, refreshed forward metrics. Non-trivial = graph has >= 3 float nodes and (fan-out or backward run); "
         "distinct = emitted source x run mode.")
 ASSUMPTIONS = ["the captured GraphModule re-executed by a plain fx.Interpreter reproduces the tensors that flowed (deterministic ops only: dropout p=0)"]
